@@ -326,6 +326,42 @@ pub fn json_stream(r: &mut Rng, n: u64, thorough: bool, out: &mut Out) {
             case += 1;
         }
     }
+    if !gen::small() {
+        // variant lists whose indices are not their positions (0 last, 0 in the middle, 255 first), and lists of 255 / 256 / 257
+        // variants, fields, tuple members: the same in every run
+        use scale_info::{form::PortableForm, Field, Path, PortableType, Type, TypeDefComposite, TypeDefTuple, TypeDefVariant, Variant};
+        let p0 = || Path::from_segments_unchecked(Vec::<String>::new());
+        let mut regs: Vec<PortableRegistry> = vec![];
+        for idxs in [vec![1u8, 0], vec![5, 0, 3], vec![255, 0], vec![2, 1, 0], vec![0], vec![7]] {
+            let vs: Vec<Variant<PortableForm>> = idxs
+                .iter()
+                .enumerate()
+                .map(|(k, i)| Variant::new(format!("V{k}"), Vec::<Field<PortableForm>>::new(), *i, Vec::<String>::new()))
+                .collect();
+            regs.push(PortableRegistry { types: vec![PortableType::new(0, Type::new(p0(), Vec::new(), TypeDefVariant::new(vs), Vec::new()))] });
+        }
+        for len in [255usize, 256, 257] {
+            let vs: Vec<Variant<PortableForm>> =
+                (0..len).map(|i| Variant::new(format!("V{i}"), Vec::<Field<PortableForm>>::new(), (i % 256) as u8, Vec::<String>::new())).collect();
+            let fs: Vec<Field<PortableForm>> = (0..len).map(|i| Field::new(None, ((i % 2) as u32).into(), None, Vec::<String>::new())).collect();
+            regs.push(PortableRegistry {
+                types: vec![
+                    PortableType::new(0, Type::new(p0(), Vec::new(), TypeDefVariant::new(vs), Vec::new())),
+                    PortableType::new(1, Type::new(p0(), Vec::new(), TypeDefComposite::new(fs), Vec::new())),
+                    PortableType::new(
+                        2,
+                        Type::new(p0(), Vec::new(), TypeDefTuple::new_portable((0..len).map(|i| ((i % 3) as u32).into()).collect::<Vec<_>>()), Vec::new()),
+                    ),
+                ],
+            });
+        }
+        for reg in regs {
+            out.line(&format!("json f{} {}", case, run_ser(&reg).1));
+            case += 1;
+            out.line(&format!("json f{} {}", case, run_pos(&reg)));
+            case += 1;
+        }
+    }
     // hand-written documents: optional members omitted / explicitly empty / null
     for doc in [
         json!({"types": []}),
